@@ -8,6 +8,7 @@ the updates are not in this model (ids only); that part of the property is decid
 shadow-ledger oracle of `harness/c04` against linear twins.
 -/
 import Verif.Lemmas.Updates
+import Verif.Lemmas.UpdatesLedger
 import Verif.Props.C01
 
 namespace Verif.C04
@@ -165,5 +166,121 @@ example : poll Ure (C01.run Ure Mgr.init [[1, 2], [3, 4]]) (some 2) 1000 =
     some (some 4, [.revert 2, .apply 3, .apply 4]) := by decide
 example : poll Ure (C01.run Ure Mgr.init [[1, 2], [3, 4]]) (some 2) 1 =
     some (some 1, [.revert 2]) := by decide
+
+/-! ### the element side: the ledger a subscriber folds from the updates
+
+Every block id carries the element diffs consensus computed for it (`D`, a parameter, well
+formed relative to the ledger of the chain below the block: `WFD`).  A subscriber folds a
+`RevertUpdate` with the block's diffs reversed and an `ApplyUpdate` with the block's diffs
+(`foldUpd`).  `ledgerOfChain D l` is the fold of the applies along the chain `l` from genesis.
+Merkle proof values are not part of this model (oracle of `harness/c04`). -/
+
+open Verif.Elements (Store Diff)
+
+theorem best_is_chain_of_tip {U} (hU : WFU U) (hist : List (List Nat)) :
+    ChainTo U (some (C01.run U Mgr.init hist).tip) (C01.run U Mgr.init hist).best := by
+  have h := C01.inv_reachable hU hist
+  refine ⟨h.chain, ?_⟩
+  have := h.chain.ne_nil
+  cases hb : (C01.run U Mgr.init hist).best with
+  | nil => exact absurd hb this
+  | cons a t => simp [Mgr.tip, hb]
+
+/-- **ledger from updates (one poll)**: for every reachable manager, every subscriber index it
+applied at some point (or "nothing"), every `max`: if the subscriber's ledger agrees on the keyed
+buckets (unspent siacoin / siafund elements, contracts with window end and revision number) with
+the ledger of its index's chain, then after folding the path the poll returns it agrees with the
+ledger of the chain of the index the poll ends at — which is the best chain when that index is
+the tip.  No condition on the reverted blocks. -/
+theorem ledger_from_updates {U} (hU : WFU U) (D : Nat → List Diff) (hD : WFD U D) (hist : List (List Nat))
+    (idx : Option Nat) (max : Nat) (hs : Sub (C01.run U Mgr.init hist) idx)
+    (l : List Nat) (hl : ChainTo U idx l) (L : Store) (hL : KeyedEq L (ledgerOfChain D l)) :
+    ∃ idx' us l', poll U (C01.run U Mgr.init hist) idx max = some (idx', us) ∧
+      Sub (C01.run U Mgr.init hist) idx' ∧ ChainTo U idx' l' ∧
+      KeyedEq (foldUpd D L us) (ledgerOfChain D l') ∧
+      (idx' = some (C01.run U Mgr.init hist).tip → l' = (C01.run U Mgr.init hist).best) := by
+  obtain ⟨idx', us, h1, h2, h3, _, _⟩ := poll_ok hU hist idx max hs
+  obtain ⟨l', h4, h5⟩ := foldUpd_keyed hD us idx idx' l L hl hL h2
+  refine ⟨idx', us, l', h1, h3, h4, h5, ?_⟩
+  intro he
+  rw [he] at h4
+  exact ChainTo.unique h4 (best_is_chain_of_tip hU hist)
+
+/-- **ledger from updates, expiration lists included**: when every block the returned path
+reverts is `ExpStable` (C02), the fold started from exactly the ledger of the index's chain is
+exactly the ledger of the end index's chain. -/
+theorem ledger_from_updates_exact {U} (hU : WFU U) (D : Nat → List Diff) (hD : WFD U D) (hist : List (List Nat))
+    (idx : Option Nat) (max : Nat) (hs : Sub (C01.run U Mgr.init hist) idx)
+    (l : List Nat) (hl : ChainTo U idx l) :
+    ∃ idx' us, poll U (C01.run U Mgr.init hist) idx max = some (idx', us) ∧
+      ((∀ b, Upd.revert b ∈ us → StableD U D b) →
+        ∃ l', ChainTo U idx' l' ∧ foldUpd D (ledgerOfChain D l) us = ledgerOfChain D l') := by
+  obtain ⟨idx', us, h1, h2, _, _, _⟩ := poll_ok hU hist idx max hs
+  exact ⟨idx', us, h1, fun hst => foldUpd_exact hD us idx idx' l hl hst h2⟩
+
+/-- repeated polling with arbitrary chunk sizes, carrying the ledger along -/
+def followL (U : Nat → Blk) (D : Nat → List Diff) (m : Mgr) : List Nat → Option Nat → Store → Option (Option Nat × Store)
+  | [], idx, L => some (idx, L)
+  | c :: cs, idx, L =>
+    match poll U m idx c with
+    | none => none
+    | some (idx', us) => followL U D m cs idx' (foldUpd D L us)
+
+theorem followL_spec {U} (hU : WFU U) (D : Nat → List Diff) (hD : WFD U D) (hist : List (List Nat)) :
+    ∀ (chunks : List Nat) (idx idx'' : Option Nat) (l : List Nat) (L : Store),
+      Sub (C01.run U Mgr.init hist) idx → ChainTo U idx l → KeyedEq L (ledgerOfChain D l) →
+      follow U (C01.run U Mgr.init hist) chunks idx = some idx'' →
+      ∃ L' l'', followL U D (C01.run U Mgr.init hist) chunks idx L = some (idx'', L') ∧
+        ChainTo U idx'' l'' ∧ KeyedEq L' (ledgerOfChain D l'') := by
+  intro chunks
+  induction chunks with
+  | nil =>
+    intro idx idx'' l L _ hl hL hf
+    simp only [follow, Option.some.injEq] at hf
+    subst hf
+    exact ⟨L, l, rfl, hl, hL⟩
+  | cons c cs ih =>
+    intro idx idx'' l L hs hl hL hf
+    obtain ⟨idx', us, l', h1, h3, h4, h5, _⟩ := ledger_from_updates hU D hD hist idx c hs l hl L hL
+    simp only [follow, h1] at hf
+    obtain ⟨L', l'', g1, g2, g3⟩ := ih idx' idx'' l' (foldUpd D L us) h3 h4 h5 hf
+    exact ⟨L', l'', by simp only [followL, h1]; exact g1, g2, g3⟩
+
+/-- **ledger from updates (any chunking, any number of polls)**: polling with chunk sizes ≥ 1
+until the tip is reached (`follow_converges`) and folding everything received leaves the
+subscriber with the ledger of the manager's best chain on the keyed buckets. -/
+theorem ledger_from_updates_follow {U} (hU : WFU U) (D : Nat → List Diff) (hD : WFD U D) (hist : List (List Nat))
+    (chunks : List Nat) (idx : Option Nat) (hs : Sub (C01.run U Mgr.init hist) idx)
+    (hc : ∀ c ∈ chunks, 1 ≤ c) (hmu : mu U (C01.run U Mgr.init hist) idx ≤ chunks.length)
+    (l : List Nat) (hl : ChainTo U idx l) (L : Store) (hL : KeyedEq L (ledgerOfChain D l)) :
+    ∃ L', followL U D (C01.run U Mgr.init hist) chunks idx L = some (some (C01.run U Mgr.init hist).tip, L') ∧
+      KeyedEq L' (ledgerOfChain D (C01.run U Mgr.init hist).best) := by
+  have hf := follow_converges hU hist chunks idx hs hc hmu
+  obtain ⟨L', l'', g1, g2, g3⟩ := followL_spec hU D hD hist chunks idx _ l L hs hl hL hf
+  have := ChainTo.unique g2 (best_is_chain_of_tip hU hist)
+  subst this
+  exact ⟨L', g1, g3⟩
+
+/-! non-vacuity: the reorg universe `Ure` with diffs — block 1 creates coin 11 and contract 21,
+block 2 spends 11 and revises 21 (window 5 → 6), block 3 creates 13, block 4 spends 13 -/
+def Dre : Nat → List Diff := fun b =>
+  if b = 0 then [⟨.sc, 10, true, false, 0, 0, none⟩]
+  else if b = 1 then [⟨.sc, 11, true, false, 0, 0, none⟩, ⟨.fc, 21, true, false, 5, 0, none⟩]
+  else if b = 2 then [⟨.sc, 11, false, true, 0, 0, none⟩, ⟨.sc, 12, true, false, 0, 0, none⟩, ⟨.fc, 21, false, false, 5, 0, some (6, 1)⟩]
+  else if b = 3 then [⟨.sc, 13, true, false, 0, 0, none⟩]
+  else if b = 4 then [⟨.sc, 13, false, true, 0, 0, none⟩, ⟨.sc, 14, true, false, 0, 0, none⟩]
+  else []
+
+/-- the subscriber that had folded blocks 0,1,2 and is walked back over 2 and forward over 3, 4
+ends with the ledger of the chain 0,1,3,4: coin 11 and contract 21 (window 5, revision 0) are
+back, 12 is gone -/
+example :
+    let L := foldUpd Dre (ledgerOfChain Dre [2, 1, 0]) [.revert 2, .apply 3, .apply 4]
+    (L.sc 11, L.sc 12, L.sc 13, L.sc 14, L.fc 21) = (true, false, false, true, some (5, 0)) ∧
+    ((ledgerOfChain Dre [4, 3, 1, 0]).sc 11, (ledgerOfChain Dre [4, 3, 1, 0]).fc 21) = (true, some (5, 0)) ∧
+    (ledgerOfChain Dre [2, 1, 0]).fc 21 = some (6, 1) := by decide
+
+example : Verif.Elements.WF (ledgerOfChain Dre [1, 0]) (Dre 2) ∧ Verif.Elements.WF (ledgerOfChain Dre [3, 1, 0]) (Dre 4) := by
+  decide
 
 end Verif.C04
